@@ -190,7 +190,7 @@ func (bt bitmap) glyphData(gid gID, xPpem, yPpem uint16) (GlyphBitmap, error) {
 	switch subtable.imageFormat {
 	case 17, 18, 19: // PNG
 		out.Format = PNG
-	case 2, 5:
+	case 2, 5, 7:
 		out.Format = BlackAndWhite
 		// ensure data length
 		L := out.Width * out.Height // in bits
